@@ -26,7 +26,7 @@ def _flat_custom_class():
 
         class FlatCustom(CustomCosmology):
             def __init__(self):
-                self._c = ac.FlatLambdaCDM(H0=70.0, Om0=0.3)
+                self._c = ac.FlatLambdaCDM(H0=100.0, Om0=0.25)  # far from the default Planck15 on purpose
 
             def comoving_distance(self, z):
                 return np.asarray(self._c.comoving_distance(z).value)
@@ -55,6 +55,10 @@ def get_cosmology(name: str):
         if "custom" not in _CUSTOM:
             _CUSTOM["custom"] = _flat_custom_class()()
         return _CUSTOM["custom"]
+    if name == "curved":  # spatially curved FLRW model: D_A != D_C / (1 + z)
+        if "curved" not in _CUSTOM:
+            _CUSTOM["curved"] = ac.LambdaCDM(H0=70.0, Om0=0.3, Ode0=0.9, name="curved-test-model")
+        return _CUSTOM["curved"]
     return getattr(ac, name)
 
 
@@ -62,7 +66,12 @@ def distance_mpc(cosmo_name: str, unit: str, z):
     """reference distance for a unit's measure straight from astropy (Mpc)"""
     import astropy.cosmology as ac
 
-    c = ac.FlatLambdaCDM(H0=70.0, Om0=0.3) if cosmo_name == "custom" else getattr(ac, cosmo_name)
+    if cosmo_name == "custom":
+        c = ac.FlatLambdaCDM(H0=100.0, Om0=0.25)
+    elif cosmo_name == "curved":
+        c = ac.LambdaCDM(H0=70.0, Om0=0.3, Ode0=0.9)
+    else:
+        c = getattr(ac, cosmo_name)
     if unit in ("kpc", "Mpc"):
         return np.asarray(c.angular_diameter_distance(z).value, dtype=float)
     if unit in ("kpc/h", "Mpc/h"):
@@ -144,6 +153,10 @@ def make_catalog(path: Path, cat: dict, centers=None, *, patch_ids=None, max_wor
         names["patch_name"] = "pid"
     else:
         names["patch_centers"] = AngularCoordinates(np.asarray(centers, dtype=float))
+        if cat.get("stale_pid") is not None:
+            # a redundant / stale patch-index column next to explicit centres: documented to be ignored
+            data["pid"] = np.asarray(cat["stale_pid"], dtype=np.int64)
+            names["patch_name"] = "pid"
     df = pd.DataFrame(data)
     return Catalog.from_dataframe(path, df, degrees=degrees, max_workers=max_workers, **names, **kw)
 
